@@ -24,7 +24,7 @@ def generate(seed, tier):
     cases = []
     kinds = ["kdmv", "kdmv_footer", "kdmv_stream", "cowd", "sesparse", "flat"]
     for i in range(n):
-        r = gen_vmdk.gen_extent(rng, tier, kind=kinds[i % len(kinds)] if i % 3 else None)
+        r = gen_vmdk.gen_extent(rng, tier, kind=kinds[(i // 3 + i) % len(kinds)] if i % 3 else None)
         if r["kind"] == "flat":
             r["extra"] = 0          # a bare flat handle takes its size from the file
         size = r["cap"] * 512
